@@ -28,9 +28,10 @@ def ctx_case(c):
     bl = lambda l: ec.cbl(l or [])
     kv = lambda l: core.clist(["(%s, %s)" % (ec.cbytes(b["k"]) if hasattr(ec, "cbytes") else core.cbytes(b["k"]), core.cfloat(b["v"])) for b in (l or [])])
     return ("{| x_listing := %s; x_makefiles := %s; x_scripts := %s; x_types := %s; x_types2 := %s; x_boosts := %s; x_boosts2 := %s; "
-            "x_targets := %s; x_obs_scripts := %s; x_err := %s; x_probe := %s |}") % (
+            "x_targets := %s; x_obs_scripts := %s; x_err := %s; x_probe := %s; x_replica := %s |}") % (
         bl(c["listing"]), bl(c["makefiles"]), bl(c["scripts"]), bl(c.get("types")), bl(c.get("types2")), kv(c.get("boosts")), kv(c.get("boosts2")),
-        bl(c.get("targets")), bl(c.get("obs_scripts")), core.cbool(c.get("err", False)), kv(c.get("probe")))
+        bl(c.get("targets")), bl(c.get("obs_scripts")), core.cbool(c.get("err", False)), kv(c.get("probe")),
+        "(Some (%s, %s))" % (bl(c.get("types3")), kv(c.get("boosts3"))) if c.get("has_replica") else "None")
 
 
 FAMILIES = {"ctx": dict(
